@@ -114,6 +114,36 @@ Theorem C15_site_client_title : forall version t rest, scalar version = true -> 
   exists v, lex_str (site_client_title version t ++ rest) = Some (v, rest).
 Proof. exact client_title_inert. Qed.
 Print Assumptions C15_site_client_title.
+(* ---- NOT PROVED (statement kept visible): the client description (site 16, exact functional model
+   Escape.site_client_desc = rstrip_q (blank_norm (strip_sp (client_esc t))), validated against the real code on every run):
+
+     (statement) C15_site_client_desc : forall t rest, scalar t = true ->
+       exists v, lex_str (q3 ++ 10 :: site_client_desc t ++ 10 :: q3 ++ rest) = Some (v, rest).
+
+   Missing lemmas: (L1) a string with paired backslashes, no NUL/surrogate and no three adjacent quotes, followed by LF,
+   stays inside a triple-quoted literal (the analogue of alias_run for an arbitrary such string); (L2) client_esc t is such
+   a string (repl3c 34 [39] leaves no three adjacent quotes; repl3c 39 [39] and dbl_bs preserve that); (L3) strip_sp,
+   blank_norm and rstrip_q preserve the three conditions (they only delete white space at the ends, blanks of blank-only
+   lines, and trailing quotes).  Until then the site is decided by the executable prediction in Corr.C15.site_pred 16
+   (the lexer run on the modelled text) against the pipeline oracle, and by the site-level oracle. *)
+
+(* ---- value-carrying forms: the docstring EVALUATES to the documented text, so an escaping bug that changes the text
+   without changing the structure is a proof failure.  Stated for texts without a carriage return (a raw CR in a literal
+   reads as LF; the layout produced by DocumentationWriter never contains one). *)
+Theorem C15_site_docwriter_value : forall t out rest, scalar t = true -> site_docwriter_rel t out = true ->
+  exists o, layoutb (nul_sp t) o = true /\ lex_str (out ++ rest) = Some (o, rest).
+Proof. exact docwriter_value. Qed.
+Print Assumptions C15_site_docwriter_value.
+Theorem C15_site_block_doc_value : forall pre sep post t rest,
+  safe_doc_raw pre = true -> nocr pre = true -> scalar t = true -> nocr t = true ->
+  sep_ok sep = true -> (sep =? 13) = false -> isoq post = true -> nocr post = true ->
+  lex_str (site_block_doc pre (sep :: post) t ++ rest) = Some (pre ++ nul_sp t ++ sep :: post, rest).
+Proof. exact block_doc_value. Qed.
+Print Assumptions C15_site_block_doc_value.
+Theorem C15_site_alias_doc_value : forall t rest, t <> [] -> scalar t = true -> nocr t = true ->
+  lex_str (site_alias_doc t ++ rest) = Some (s_alias_for ++ nul_sp t, rest).
+Proof. exact alias_doc_value. Qed.
+Print Assumptions C15_site_alias_doc_value.
 (* regression: the former witnesses of F15c, F15d, F15g, F15k *)
 Theorem C15_fixed_doc_witnesses :
   (exists v, lex_str (site_alias_doc w_endq ++ []) = Some (v, [])) /\
